@@ -116,7 +116,8 @@ fn kind_of(name: &str, i: u64) -> Kind {
 fn main() {
     let args: Vec<String> = std::env::args().collect();
     let cmd = args.get(1).map(|s| s.as_str()).unwrap_or("");
-    std::panic::set_hook(Box::new(|_| {}));
+    // panics are part of the scenarios: silent by default; VERIF_PANIC_TRACE=1 prints message and location (to find a double panic)
+    if std::env::var("VERIF_PANIC_TRACE").is_ok() { std::panic::set_hook(Box::new(|i| { eprintln!("PANIC[{:?}] {}", std::thread::current().name(), i); })); } else { std::panic::set_hook(Box::new(|_| {})); }
     let seed: u64 = arg(&args, "--seed").and_then(|s| s.parse().ok()).unwrap_or(0);
     let count: usize = arg(&args, "--count").and_then(|s| s.parse().ok()).unwrap_or(10);
     let scheds: u64 = arg(&args, "--scheds").and_then(|s| s.parse().ok()).unwrap_or(10);
